@@ -302,6 +302,23 @@ theorem trace_final (cfg : Cfg) (hW : 1 ≤ cfg.W) (wg : List Nat) (L : Lin PSt)
   simp only [batchesOf_lines hb] at hf
   exact ⟨ps, hr, hf.1, by simp [seqTotals, hf.2.1, hf.2.2.1, hf.2.2.2.1]⟩
 
+/-- The reorderings the checker may use are limited by the log: an event logged AFTER its action (a
+    receive, a classified line, …) that precedes in the log an event logged BEFORE its action (a send, a
+    close, …) precedes it in every admissible schedule — so e.g. a send can never be moved in front of a
+    receive that was logged before it. -/
+theorem trace_order_respected {tr : Array Ev} {sched : List Nat} (h : Admissible tr sched)
+    {i j : Nat} (hij : i < j) (hia : beforeAt tr i = false) (hjb : beforeAt tr j = true)
+    {p q : Nat} (hp : p < sched.length) (hq : q < sched.length) (hpi : sched[p] = i) (hqj : sched[q] = j) :
+    p < q :=
+  admissible_after_before h hij hia hjb hp hq hpi hqj
+
+/-- Non-vacuity: the logged order of `exampleLog` is itself admissible (not a path, see below), and in it
+    the worker's start (`ws`, position 3, after-type) precedes the reader's second send (`fl`, position 5,
+    before-type). -/
+example : Admissible exampleLog.toArray (List.range 19) ∧
+    beforeAt exampleLog.toArray 3 = false ∧ beforeAt exampleLog.toArray 5 = true :=
+  ⟨admissibleB_sound (by decide), by decide, by decide⟩
+
 /-- Non-vacuity of `trace_accepts_sound` / `trace_final`: the small real-shaped log
     `PipelineTrace.exampleLog` (the worker logs its first receive late) is accepted (the schedule found
     must move the late `wr` before the second `fl`, because the batch channel has capacity 1) … -/
